@@ -625,11 +625,19 @@ def unhex(h):
     return b'' if h == '-' else binascii.unhexlify(h)
 
 
+def _is_utf8(b):
+    try:
+        b.decode('utf-8')
+        return True
+    except UnicodeDecodeError:
+        return False
+
+
 def stage_harness(ck, drv, n_json, n_links, hist):
     objs = ck.objects([os.path.join(VERIF, 'harness', 'h_c20.cc')], flags=['-O1', '-g'], tag='h') + ck.libmp_objects()
     exe = ck.link('h_c20', objs)
     total = 0
-    for mode, n in (('json', n_json), ('links', n_links)):
+    for mode, n in (('json', n_json), ('links', n_links), ('escape', n_json)):
         p = subprocess.run([exe, mode, str(ck.seed), str(n)], capture_output=True, text=True)
         if p.returncode != 0:
             ck.add_violation('harness:%s:crash' % mode, 'h_c20 %s exited with %s: %s' % (mode, p.returncode, p.stderr[-500:]),
@@ -642,6 +650,23 @@ def stage_harness(ck, drv, n_json, n_links, hist):
         nbad = 0
         for o, i, a in zip(ops, impl, ans):
             total += 1
+            if mode == 'escape':
+                inp, outb = unhex(o.split()[1]), unhex(i)
+                if i != a:
+                    nbad += 1
+                    ck.add_violation('escape:model-differs', 'EscapeJSON(%r) = %r, the Lean model escapeB gives %r' % (inp, outb, unhex(a) if a != 'bad-op' else a),
+                                     {'input_hex': o.split()[1], 'impl_hex': i, 'model_hex': a, 'correspondence': 'h_c20 escape vs drv_c20 EB'}, found_input=False)
+                # property oracle on the real output: well-formed UTF-8 and a valid JSON string body, for every byte string
+                try:
+                    json.loads('"' + outb.decode('utf-8') + '"')
+                    okv = True
+                except (UnicodeDecodeError, ValueError):
+                    okv = False
+                hist['escape_inputs_invalid_utf8'] = hist.get('escape_inputs_invalid_utf8', 0) + (0 if _is_utf8(inp) else 1)
+                if not okv:
+                    ck.add_violation('escape:invalid-output', 'EscapeJSON(%r) = %r is not a valid JSON string body in UTF-8' % (inp, outb),
+                                     {'input_hex': o.split()[1], 'output_hex': i, 'how': 'mp::MiniJSONWriter<fmt::MemoryWriter>::EscapeJSON(bytes); harness/h_c20.cc escape <seed> <n>'})
+                continue
             if mode == 'json':
                 hist['writer_ops'] = hist.get('writer_ops', 0) + len(o.split()) - 1
                 if i != a:
@@ -891,15 +916,23 @@ def stage_config(ck, exe, tab, hist):
 
 
 # ------------------------------------------------------------------ entry
-N_THEOREMS = 17
+N_THEOREMS = 30
 
 
 def run(ck):
     quick = ck.tier == 'quick'
     if os.environ.get('VERIF_COVERAGE') == '1':
         return run_coverage(ck)
-    proof_ok, failing = ck.proof_stage('MpVerif.C20.Props', 'MpVerif/C20/Props.lean', 'C20_', ['MpVerif/C20/*.lean'],
-                                       expect_min=N_THEOREMS)
+    gen = os.path.join(LEAN, 'MpVerif', 'Gen', 'C20Json.lean')
+    rc, out, err = sh([sys.executable, os.path.join(VERIF, 'translators', 'gen_c20json.py'), REPO, gen, os.path.join(BUILD, 'tr_c20')], timeout=600)
+    ck.log((out.strip() or err.strip())[-300:])
+    translator_ok = rc == 0
+    if translator_ok:
+        proof_ok, failing = ck.proof_stage('MpVerif.C20.Props', 'MpVerif/C20/Props.lean', 'C20_', ['MpVerif/C20/*.lean', 'MpVerif/Gen/C20Json.lean'],
+                                           expect_min=N_THEOREMS)
+    else:
+        proof_ok, failing = False, ['translator gen_c20json: ' + (out + err).strip()[-300:]]
+        ck.cov.update({'obligations': N_THEOREMS, 'discharged': 0, 'checker_cmd': 'translators/gen_c20json.py failed'})
     ck.log('proof stage: ok=%s failing=%s' % (proof_ok, failing[:8]))
     if ck.tier == 'thorough' and proof_ok:
         bad = ck.leanchecker(['MpVerif.C20.Props'])
@@ -942,7 +975,8 @@ def run(ck):
         'the RecModelAPI log is the independent record of what the solver API received (types, groups, names, counts); numeric values are not compared',
         'export type names are derived from the STORE_CONSTRAINT_TYPE__* macros of the current tree',
         'runs whose conversion fails (or crashes) are checked line by line only']
-    ck.cov['trusted_base'] += ['MpVerif/C20/ModelGraph.lean `classify` as the reading of the record shapes; `parse` as the definition of valid JSON (cross-checked with python json on every run)',
+    ck.cov['trusted_base'] += ['translators/gen_c20json.py + clang-14 typed AST (integral casts in EscapeJSON treated as value preserving: bytes, small counts, indices); MpVerif/C20/GenBase.lean (meaning of the combinators the generated terms are built from)',
+                               'MpVerif/C20/ModelGraph.lean `classify` as the reading of the record shapes; `parse` as the definition of valid JSON (cross-checked with python json on every run)',
                                'harness/recsolver (recording driver) incl. RECSOLVER_LINKS final link extents; harness/h_c20.cc']
     if not proof_ok:
         for f in failing:
